@@ -2810,6 +2810,8 @@ def _transmission_body_moment(
 
     if contact_dim == 1 or opt_cone == ConeType.ELLIPTIC:
       efcid0 = contact_efc_address[0]
+      if efcid0 < 0:  # row dropped for lack of njmax (reported as NEFC overflow)
+        return
       if efc_is_sparse:
         rownnz = efc_J_rownnz_in[worldid, efcid0]
         if dofid < rownnz:
@@ -2828,6 +2830,8 @@ def _transmission_body_moment(
 
       for j in range(2 * npyramid):
         efcid = contact_efc_address[j]
+        if efcid < 0:  # row dropped for lack of njmax (reported as NEFC overflow)
+          continue
         if efc_is_sparse:
           rownnz = efc_J_rownnz_in[worldid, efcid]
           if dofid < rownnz:
